@@ -123,12 +123,25 @@ def container? (c : Cipher) (pub ct mac : Bytes) : Option Bytes := do
 /-- block size used for the padding: 8 without a cipher, `max(block_size, 8)` with one -/
 def padBlockSize (c : Cipher) : Nat := if c.name = sNone then c.blockSize else max c.blockSize 8
 
-/-- `export_private_key('openssh')` before base64 wrapping; `check` = `os.urandom(4)` as an integer -/
-def encodeOpenssh? (c : Cipher) (check : Nat) (k : OpensshKey) : Option Bytes := do
+/-- `export_private_key('openssh')` before base64 wrapping as it was BEFORE the repair "refuse a comment that
+    contains a NUL": every comment is written; `check` = `os.urandom(4)` as an integer -/
+def encodeOpensshPreFix? (c : Cipher) (check : Nat) (k : OpensshKey) : Option Bytes := do
   let plain ← plainSection? check k
   let padded ← addPadding? (padBlockSize c) plain
   if c.name = sNone then container? c k.pub padded []
   else container? c k.pub (c.encrypt padded).1 (c.encrypt padded).2
+
+/-- what OpenSSH requires of the comment of a private key: it is read with `sshbuf_get_cstring`, which fails
+    (and with it the load of the whole file) when a NUL occurs anywhere but at the very end -/
+def cstringOk (comment : Bytes) : Bool := !(comment.dropLast.contains 0)
+
+/-- `if self._comment and b'\0' in self._comment: raise KeyExportError(...)` (public_key.py, first statement
+    of the `openssh` branch of `export_private_key`); the flag is probed on the tree under check -/
+def commentRefused (comment : Bytes) : Bool := Gen.C15.exportRefusesNulComment && comment.contains 0
+
+/-- `export_private_key('openssh')` before base64 wrapping; `none` = `KeyExportError` / `OverflowError` -/
+def encodeOpenssh? (c : Cipher) (check : Nat) (k : OpensshKey) : Option Bytes :=
+  if commentRefused k.comment then none else encodeOpensshPreFix? c check k
 
 def getField : FieldKind → Getter Bytes
   | .str => getString
